@@ -285,6 +285,40 @@ pub fn chain_prog(n: usize, oscillate: bool) -> Prog {
     Prog { ruledefs: vec![RuleDefSrc { name: None, sub: false, rules }], items }
 }
 
+/// Directed family: a jump over instructions of variable size whose encoding does not change when they are
+/// re-resolved (opcode and late operand zero or not), in banks at small, wide and negative addresses: a label that
+/// still moves while no encoding changes must keep the iteration going.
+pub fn late_zero_operand_progs() -> Vec<Prog> {
+    let mut out = vec![];
+    for addr in [0i128, 1i128 << 64, (1i128 << 64) - 16, -0x100] {
+        for opc in ["0x00", "0x10"] {
+            for late in ["done - done", "done - done + 1", "done - done + 0x100", "done`4"] {
+                for pad in 0..=2usize {
+                    for width in ["a`8", "a`16"] {
+                        let rules = vec![
+                            RuleSrc::new("jmp {a}", &format!("0x10 @ {}", width)),
+                            RuleSrc::new("ld {x: u8}", &format!("{} @ x", opc)),
+                            RuleSrc::new("ld {x: u16}", &format!("{} @ x", opc)),
+                            RuleSrc::new("halt", "0xff"),
+                        ];
+                        let mut items = vec![Item::Bankdef(BankSrc { name: "code".into(), bits: Some(8), addr: Some(addr), size: Some(0x100), outp: Some(0), fill: false, labelalign: None })];
+                        items.push(Item::Instr("jmp done".into()));
+                        for _ in 0..=pad {
+                            items.push(Item::Instr("ld x".into()));
+                        }
+                        items.push(Item::Label("done".into()));
+                        items.push(Item::Instr("halt".into()));
+                        items.push(Item::Const("x".into(), "zero".into()));
+                        items.push(Item::Const("zero".into(), late.into()));
+                        out.push(Prog { ruledefs: vec![RuleDefSrc { name: None, sub: false, rules }], items });
+                    }
+                }
+            }
+        }
+    }
+    out
+}
+
 /// Directed family: a boolean constant over a label that only settles in the third pass (a pc-relative short
 /// jump that can shrink only after another one did), used before or after its definition, for every
 /// threshold and padding: {use first, constant first} x thresholds 0..6 x pads 0..2 x 0..2.
@@ -383,6 +417,11 @@ pub fn scope_parent_progs() -> Vec<Prog> {
         }
     }
     out
+}
+
+pub fn in_wide_bank(mut p: Prog) -> Prog {
+    p.items.insert(0, Item::Bankdef(BankSrc { name: "wide".into(), bits: Some(8), addr: Some(1i128 << 64), size: None, outp: Some(0), fill: false, labelalign: None }));
+    p
 }
 
 pub fn in_negative_bank(mut p: Prog) -> Prog {
@@ -710,11 +749,26 @@ pub fn run(ctx: &Ctx) -> Report {
         }));
         levels.push(json!({"family": "pc-relative inside a bank at address -0x100", "max_len": maxlen, "programs": seq_count(k, maxlen)}));
     }
+    // ... and every family inside a bank at 2^64 (label values beyond the machine word)
+    for f in fams.iter() {
+        let k = f.items.len() as u64;
+        let maxlen: u32 = f.maxlen(ctx.thorough);
+        let b = &budgets;
+        let sw: &[(bool, bool)] = if ctx.thorough { &SWITCHES } else { &[(true, true)] };
+        rep.absorb(par_run(seq_count(k, maxlen), |i, l| {
+            let seq = seq_decode(i, k, maxlen);
+            judge_sw(&in_wide_bank(prog_of(f, &seq)), "family-in-a-bank-at-2^64", b, sw, l);
+        }));
+        levels.push(json!({"family": format!("{} inside a bank at address 2^64", f.name), "max_len": maxlen, "programs": seq_count(k, maxlen)}));
+    }
     // skeleton grid
     let all_budgets: Vec<usize> = (1..=30).collect();
     let grid: Vec<(usize, bool)> = (0..=12).flat_map(|n| [(n, false), (n, true)]).collect();
     rep.absorb(par_cases(&grid, |(n, osc), l| judge(&chain_prog(*n, *osc), "skeleton-chain", &all_budgets, l)));
     levels.push(json!({"family": "skeleton grid: chains 0..12 x {plain, +oscillator} x budgets 1..30 x 4 switches", "programs": grid.len(), "runs": grid.len() * 120}));
+    let lz = late_zero_operand_progs();
+    rep.absorb(par_cases(&lz, |p, l| judge(p, "late-zero-operand-directed", &all_budgets, l)));
+    levels.push(json!({"family": "late zero operand (directed): 4 bank addresses (0, 2^64, 2^64-16, -0x100) x 2 opcodes x 4 late operands x 3 pads x 2 jump widths x budgets 1..30 x 4 switches", "programs": lz.len()}));
     let lb = late_bool_progs();
     rep.absorb(par_cases(&lb, |p, l| judge(p, "late-boolean-directed", &all_budgets, l)));
     levels.push(json!({"family": "late-settling boolean constant (directed): 2 orders x 7 thresholds x 3 x 3 pads x budgets 1..30 x 4 switches", "programs": lb.len()}));
